@@ -1,7 +1,6 @@
 package main
 
 import (
-	"strconv"
 	"bytes"
 	"crypto/sha256"
 	"encoding/hex"
@@ -10,6 +9,7 @@ import (
 	"os"
 	"reflect"
 	"sort"
+	"strconv"
 	"strings"
 
 	"github.com/wkhere/bcl"
@@ -24,8 +24,8 @@ type detCase struct {
 	Shape string `json:"shape"`
 	N     int    `json:"n"`
 	Src   []int  `json:"src"`
-	Sens bool   `json:"sens"`
-	NT   bool   `json:"nt"`
+	Sens  bool   `json:"sens"`
+	NT    bool   `json:"nt"`
 }
 
 func canonBlocks(bs []bcl.Block) string {
